@@ -89,7 +89,7 @@ def dt_from_spec(s):
     """s = {'f': [y,mo,d,h,mi,s,us], 'off': minutes|None, 'tz': kind}"""
     from dateutil import tz
     f = s['f']
-    d = datetime.datetime(*f)
+    d = (HostDateTime if s.get('sub') else datetime.datetime)(*f)
     off = s.get('off')
     if off is None:
         return d
@@ -106,6 +106,10 @@ def dt_from_spec(s):
     else:
         z = datetime.timezone(datetime.timedelta(minutes=off))
     return d.replace(tzinfo=z)
+
+
+class HostDateTime(datetime.datetime):
+    """hosts hand in subclasses of datetime as well (arrow / pendulum style)"""
 
 
 def ts_from_spec(s):
@@ -146,7 +150,8 @@ def gen_dt(w, naive_ok=True):
         off = 0
     else:
         off = gen_off(w)
-    return {'f': f, 'off': off, 'tz': w.choice(['py', 'dateutil'])}
+    return {'f': f, 'off': off, 'tz': w.choice(['py', 'dateutil']),
+            'sub': w.random() < 0.15}
 
 
 def gen_off(w):
